@@ -34,6 +34,15 @@ def _huge_error(x): return InjectedError((x, 'x' * 200_000))
 
 FALSY = [None, 0, '', ()]      # item values a stream may legitimately carry and that code is tempted to read as 'nothing'
 
+def aliased(k, offset=0):
+    """A stream that re-uses ONE buffer object for all its items (`yield buf; buf[0] = next`): what an item is has to be
+    fixed when it is taken from the stream."""
+    buf = [0]
+    for x in range(offset + 1, offset + k + 1):
+        buf[0] = x
+        yield buf
+
+
 EXC_KINDS = {'custom': InjectedError, 'ValueError': ValueError, 'AssertionError': AssertionError, 'EOFError': EOFError,
              'BrokenPipeError': BrokenPipeError, 'TypeError': TypeError, 'KeyError': KeyError,
              'cannot-unpickle': _required_args_error, 'huge': _huge_error}
@@ -48,6 +57,7 @@ class TenTimes:
         self.fan = fan          # 'one': one output per item; 'two': two outputs per item; 'skip1': item 1 yields nothing; 'none1': item 1's output is None
 
     def filter(self, x):
+        if isinstance(x, list): x = x[0]      # items delivered in a (possibly re-used) one-element buffer
         pid = _pid()
         try:
             from vf.engines import sched
